@@ -18,3 +18,20 @@ Print Assumptions git_reads_dulwich.
 Theorem subsection_roundtrip : forall n e, escape_subsection n = Some e -> unescape_subsection e = n.
 Proof. exact subsection_roundtrip_lemma. Qed.
 Print Assumptions subsection_roundtrip.
+
+(* the case-insensitive multi-valued dictionary behind every section: for every
+   sequence of add / set / delete the lookup cache agrees with the ordered list
+   of pairs (what items() and the writer emit) *)
+From DV Require Import ConfigDictP.
+Theorem multidict_coherent : forall ops k,
+  md_getitem (md_run ops) k = last_val (lower k) (md_real (md_run ops)).
+Proof. exact multidict_coherent_lemma. Qed.
+Print Assumptions multidict_coherent.
+
+(* deleting a key removes all of its values and nothing else, in any state *)
+Theorem multidict_delete : forall s k q,
+  md_get_all (fst (md_step s (MDel k))) q =
+  if snd (md_step s (MDel k)) then md_get_all s q
+  else if bytes_beq (lower q) (lower k) then [] else md_get_all s q.
+Proof. exact multidict_delete_lemma. Qed.
+Print Assumptions multidict_delete.
